@@ -358,6 +358,11 @@ def _lattice_cases():
             for level in ("layer", "call"):
                 for lim in ("layer", "call", "none"):
                     out.append({"f": f, "opt": "norm", "level": level, "flip": 0, "other": None, "norm_instance": lim})
+        if f == "map":
+            # the colouring Array of a vector layer is an option like the others: the layer's own one wins over the call's
+            for level in ("layer", "call", "both"):
+                for mode in ("vec", "stream"):
+                    out.append({"f": f, "opt": "color", "level": level, "flip": 0, "other": None, "vec_color": mode})
         # pairwise: a second option set at the opposite level
         for o1 in opts:
             for o2 in opts:
@@ -407,9 +412,43 @@ def lattice_norm_instance(case, r):
             return
 
 
+def lattice_vec_color(case, r):
+    level, mode = case["level"], case["vec_color"]
+    r.nontrivial(level == "both")
+    r.label("f_map", "opt_color_of_vector_layer", "level_" + level, "mode_" + mode)
+    m = meshes.build(MESH_SPEC)
+    dg = meshes.datagroup(m, osyris)
+    ca = osyris.Array(values=np.linspace(1.0, 2.0, m.n), unit="K", name="ca")
+    cb = osyris.Array(values=np.linspace(50.0, 90.0, m.n) ** 1.3, unit="g", name="cb")
+
+    def run(lay_color, call_color):
+        lkw = {"color": lay_color} if lay_color is not None else {}
+        ckw = {"color": call_color} if call_color is not None else {}
+        return quiet(lambda: osyris.map(dg.layer("scalar1"), dg.layer("vec", mode=mode, **lkw), direction="z",
+                                        dx=0.9137 * osyris.units("cm"), origin=osyris.Vector(0.5217, 0.4723, 0.5611, unit="cm"),
+                                        resolution=5, plot=False, **ckw))
+    lay_c = ca if level in ("layer", "both") else None
+    call_c = cb if level in ("call", "both") else None
+    eff = lay_c if lay_c is not None else call_c
+    p, exc = run(lay_c, call_c)
+    ref, exc2 = run(eff, None)                  # the effective colouring given at the layer alone
+    other, _ = run(cb if eff is ca else ca, None)
+    if exc is not None or exc2 is not None:
+        r.bad(["lattice", "raises", "map", "color", level], f"{exc!r} / {exc2!r}")
+        return
+    got, want, alt = (np.ma.filled(x.layers[1]["data"], np.nan) for x in (p, ref, other))
+    if got.shape != want.shape or not np.allclose(got, want, rtol=1e-12, atol=0, equal_nan=True):
+        hint = " (it is the other Array's)" if got.shape == alt.shape and np.allclose(got, alt, rtol=1e-12, atol=0, equal_nan=True) else ""
+        r.bad(["lattice", "option-not-effective", "map", "color", "layer-level" if lay_c is not None else "call-level"],
+              f"{mode} layer, colouring Array given at level {level!r}: the third component of the data is not that of the "
+              f"effective Array ({eff.name}){hint}")
+
+
 def lattice(case, r):
     if case.get("norm_instance"):
         return lattice_norm_instance(case, r)
+    if case.get("vec_color"):
+        return lattice_vec_color(case, r)
     f, opt, level = case["f"], case["opt"], case["level"]
     lv, cv = VALUES[opt][case["flip"]], VALUES[opt][1 - case["flip"]]
     r.nontrivial(level == "both")
@@ -544,8 +583,65 @@ def lattice(case, r):
                     return
 
 
+# ------------------------------------------------------------------ calls that share a matplotlib axes
+axes_case_st = st.fixed_dictionaries({
+    "f": st.sampled_from(["hist1d", "hist1d", "hist2d"]),
+    # the call that is made twice, and the calls made on the same axes in between
+    "first": st.fixed_dictionaries({"log": st.booleans(), "bins": st.sampled_from([7, 20, None])}),
+    "between": st.lists(st.fixed_dictionaries({"log": st.booleans(), "bins": st.sampled_from([7, 20, None])}), min_size=1, max_size=3),
+    "bins_at": st.sampled_from(["call", "layer"]),
+})
+
+
+def shared_axes(case, r):
+    """c1, others..., c1 again on one axes object: the two executions of c1 have the same arguments (the axes included) and
+    must return the same data, whatever the calls in between left on the axes (scales, artists)."""
+    n = 40
+    a = osyris.Array(values=np.linspace(1.0, 900.0, n) ** 1.1, unit="cm", name="a")
+    b = osyris.Array(values=np.linspace(2.0, 30.0, n), unit="g", name="b")
+    f = case["f"]
+    r.label("axes_" + f)
+    r.nontrivial(any(c["log"] != case["first"]["log"] for c in case["between"]))
+    if r.records is not None and any(c["log"] != case["first"]["log"] for c in case["between"]):
+        r.label("axes_scale_changed_in_between")
+    fig, ax = plt.subplots()
+
+    def call(c):
+        if f == "hist1d":
+            kw = {"logx": c["log"], "ax": ax}
+            lay = a
+            if c["bins"] is not None:
+                if case["bins_at"] == "layer":
+                    lay = Layer(a, bins=c["bins"])
+                else:
+                    kw["bins"] = c["bins"]
+            return quiet(lambda: osyris.histogram1d(lay, **kw))
+        return quiet(lambda: osyris.histogram2d(a, b, resolution=c["bins"] or 6, logx=c["log"], ax=ax))
+    try:
+        p1, e1 = call(case["first"])
+        for c in case["between"]:
+            call(c)
+        p2, e2 = call(case["first"])
+        if (e1 is None) != (e2 is None):
+            r.bad(["shared-axes", "exception-differs", f], f"first execution {e1!r}, second {e2!r}; {case}")
+            return
+        if e1 is not None:
+            return
+        d1 = [np.asarray(p1.x), np.asarray(p1.y)] + ([np.ma.filled(p1.layers[0]["data"], np.nan)] if f == "hist2d" else [])
+        d2 = [np.asarray(p2.x), np.asarray(p2.y)] + ([np.ma.filled(p2.layers[0]["data"], np.nan)] if f == "hist2d" else [])
+        for k, (u, v) in enumerate(zip(d1, d2)):
+            if u.shape != v.shape or not np.array_equal(u, v, equal_nan=True):
+                r.bad(["shared-axes", "same-call-different-data", f],
+                      f"{f} called with {case['first']} on an axes, then {case['between']} on the same axes, then the first call "
+                      f"again: returned data differ ({'x' if k == 0 else 'y' if k == 1 else 'layer'}: {u.shape} vs {v.shape})")
+                return
+    finally:
+        plt.close("all")
+
+
 def subs(ctx):
     return [
+        Sub("shared_axes", shared_axes, strategy=axes_case_st, quick=60, thorough=400),
         Sub("lattice", lattice, cases=_lattice_cases(), shard=False),
         Sub("history", history, strategy=hist_case_st, quick=120, thorough=600,
             required={"resolution_dict_reused": 0.1, "calls_map": 0.35, "calls_hist2d": 0.15, "calls_hist1d": 0.15}),
